@@ -17,6 +17,13 @@ computes, one operator at a time, applied to every eligible site of one file:
   messages          text of raise / warn / log messages and docstrings edited
   noise             unused assignment at the top of every function; unused helper and import added
   keywordify        last positional argument of calls to same-module functions passed by keyword
+  drop-else-after-leave   if c: ...; return  else: B   -> if c: ...; return ; B
+  else-after-guard-clause if c: return X ; rest        -> if c: return X  else: rest
+  de-morgan         a or b (in a test)         -> not (not a and not b)
+  split-chain       a <= x < b                 -> a <= x and x < b
+  empty-literal-calls []  / {}                 -> list() / dict()
+  numpy-alias       np.f(...)                  -> numpy.f(...)  (import numpy added)
+  len-zero          len(x) == 0 (in a test)    -> not len(x)
 
 Each variant is written to a scratch tree (mkdtemp outside /repo and /verif;
 other files symlinked) and the check is run on it: it must exit 0.  A non-zero
@@ -288,7 +295,129 @@ def make_keywordify(tree):
     return op
 
 
+def _leaves(stmts):
+    return bool(stmts) and isinstance(stmts[-1], (ast.Return, ast.Raise, ast.Continue, ast.Break))
+
+
+def op_drop_else_after_leave(fn):
+    """if c: ...return  else: B   ->   if c: ...return ; B"""
+    n = 0
+    for body in list(_body_lists(fn)):
+        i = 0
+        while i < len(body):
+            s = body[i]
+            if isinstance(s, ast.If) and s.orelse and _leaves(s.body) and i == len(body) - 1 or \
+                    (isinstance(s, ast.If) and s.orelse and _leaves(s.body) and isinstance(s.body[-1], (ast.Return, ast.Raise))):
+                rest = s.orelse
+                s.orelse = []
+                body[i + 1:i + 1] = rest
+                n += 1
+            i += 1
+    return n
+
+
+def op_else_after_guard_clause(fn):
+    """if c: return X ; rest...   ->   if c: return X  else: rest...   (function bodies only)"""
+    n = 0
+    for f in ast.walk(fn):
+        if not isinstance(f, (ast.FunctionDef, ast.AsyncFunctionDef)):
+            continue
+        body = f.body
+        for i, s in enumerate(body):
+            if isinstance(s, ast.If) and not s.orelse and _leaves(s.body) and isinstance(s.body[-1], (ast.Return, ast.Raise)) \
+                    and i + 1 < len(body) and not any(isinstance(x, (ast.FunctionDef, ast.ClassDef)) for x in body[i + 1:]):
+                s.orelse = body[i + 1:]
+                del body[i + 1:]
+                n += 1
+                break
+    return n
+
+
+def op_de_morgan(fn):
+    n = 0
+    for x in ast.walk(fn):
+        if isinstance(x, (ast.If, ast.While, ast.IfExp)) and isinstance(x.test, ast.BoolOp):
+            b = x.test
+            other = ast.And() if isinstance(b.op, ast.Or) else ast.Or()
+            x.test = ast.UnaryOp(ast.Not(), ast.BoolOp(other, [ast.UnaryOp(ast.Not(), v) for v in b.values]))
+            n += 1
+    return n
+
+
+def op_split_chain(fn):
+    n = 0
+    for x in ast.walk(fn):
+        for field, val in ast.iter_fields(x):
+            vals = val if isinstance(val, list) else [val]
+            for k, c in enumerate(vals):
+                if isinstance(c, ast.Compare) and len(c.ops) == 2 and isinstance(c.comparators[0], (ast.Name, ast.Constant, ast.Attribute)):
+                    new = ast.BoolOp(ast.And(), [ast.Compare(c.left, [c.ops[0]], [c.comparators[0]]),
+                                                 ast.Compare(copy.deepcopy(c.comparators[0]), [c.ops[1]], [c.comparators[1]])])
+                    if isinstance(val, list):
+                        val[k] = new
+                    else:
+                        setattr(x, field, new)
+                    n += 1
+    return n
+
+
+def op_empty_literal_calls(fn):
+    n = 0
+    for x in ast.walk(fn):
+        for field, val in ast.iter_fields(x):
+            vals = val if isinstance(val, list) else [val]
+            for k, c in enumerate(vals):
+                new = None
+                if isinstance(c, ast.List) and not c.elts and isinstance(c.ctx, ast.Load):
+                    new = ast.Call(ast.Name('list', ast.Load()), [], [])
+                elif isinstance(c, ast.Dict) and not c.keys:
+                    new = ast.Call(ast.Name('dict', ast.Load()), [], [])
+                if new is not None:
+                    if isinstance(val, list):
+                        val[k] = new
+                    else:
+                        setattr(x, field, new)
+                    n += 1
+    return n
+
+
+def op_numpy_alias(fn):
+    n = 0
+    for x in ast.walk(fn):
+        if isinstance(x, ast.Name) and x.id == 'np' and isinstance(x.ctx, ast.Load):
+            x.id = 'numpy'
+            n += 1
+    return n
+
+
+def op_len_zero(fn):
+    n = 0
+    for x in ast.walk(fn):
+        for field, val in ast.iter_fields(x):
+            vals = val if isinstance(val, list) else [val]
+            for k, c in enumerate(vals):
+                if isinstance(c, ast.Compare) and len(c.ops) == 1 and isinstance(c.ops[0], ast.Eq) \
+                        and isinstance(c.comparators[0], ast.Constant) and c.comparators[0].value == 0 \
+                        and type(c.comparators[0].value) is int \
+                        and isinstance(c.left, ast.Call) and isinstance(c.left.func, ast.Name) and c.left.func.id == 'len' \
+                        and isinstance(x, (ast.If, ast.While, ast.IfExp, ast.BoolOp, ast.UnaryOp)):
+                    new = ast.UnaryOp(ast.Not(), c.left)
+                    if isinstance(val, list):
+                        val[k] = new
+                    else:
+                        setattr(x, field, new)
+                    n += 1
+    return n
+
+
 OPS = {
+    'drop-else-after-leave': op_drop_else_after_leave,
+    'else-after-guard-clause': op_else_after_guard_clause,
+    'de-morgan': op_de_morgan,
+    'split-chain': op_split_chain,
+    'empty-literal-calls': op_empty_literal_calls,
+    'numpy-alias': op_numpy_alias,
+    'len-zero': op_len_zero,
     'rename-locals': op_rename_locals,
     'if-else-swap': op_if_else_swap,
     'ternary-flip': op_ternary_flip,
@@ -317,6 +446,9 @@ def gen_variants(path, funcs, only_func=None):
             if only_func and fn.name != only_func:
                 continue
             n += op(fn)
+        if name == 'numpy-alias' and n:
+            t.body.insert(1 if isinstance(t.body[0], ast.ImportFrom) and t.body[0].module == '__future__' else 0,
+                          ast.parse('import numpy').body[0])
         if name == 'noise':
             t.body.append(ast.parse('import itertools as _unused_itertools\n\n\ndef _unused_helper(x):\n    return x\n').body[0])
             t.body.append(ast.parse('def _unused_helper(x):\n    return x\n').body[0])
